@@ -293,7 +293,7 @@ func (i *interpreter) resetGlobals(order []*ssa.Package) {
 
 func (p *Program) runPath(i *interpreter, ex *Explorer, solver *Solver, entry *ssa.Function, order []*ssa.Package, it workItem, cfg ExploreConfig) {
 	solver.NewPath()
-	ctx := &pathCtx{ex: ex, solver: solver, prefix: it.prefix, nameCnt: map[string]int{}, reach: map[string]bool{}, knownAct: map[string]*Term{}, assumes: map[string]bool{}, held: map[heldKey]int{}, doms: map[*Term]*byteDom{}, fixed: map[uint64][]fixedTerm{}, codecs: map[*value]*codecState{}, regexps: map[*value]*regexState{}}
+	ctx := &pathCtx{ex: ex, solver: solver, prefix: it.prefix, nameCnt: map[string]int{}, reach: map[string]bool{}, knownAct: map[string]*Term{}, assumes: map[string]bool{}, held: map[heldKey]int{}, doms: map[*Term]*byteDom{}, fixed: map[uint64][]fixedTerm{}, codecs: map[*value]*codecState{}, tlsConns: map[*value]*tlsState{}, tlsOK: true, tlsProto: "", regexps: map[*value]*regexState{}}
 	if it.model != nil {
 		ctx.setModel(it.model)
 	}
